@@ -3,10 +3,10 @@ package main
 // Timeout (C07) and hedge (C09) executor rules.
 
 import (
-	"strconv"
-	"go/token"
 	"fmt"
+	"go/token"
 	"go/types"
+	"strconv"
 	"strings"
 
 	"golang.org/x/tools/go/ssa"
@@ -800,6 +800,22 @@ func c09Attempt(c *Ctx, ev *Evaluator, g *Event, innerFn, maxHedges, resultChan 
 			bad("every finished attempt must be counted exactly once (resultCount.Add(1)) on every path")
 			continue
 		}
+		// the counter and the delivery claim belong to the hedged call, not to one attempt: they were made before the
+		// attempt was started
+		sharedCell := func(t *T) bool {
+			for i := 0; t != nil && t.Op == "faddr" && i < 4; i++ {
+				t = t.Args[0]
+			}
+			if t == nil || t.Op != "alloc" || g.Snap == nil {
+				return false
+			}
+			n, err := strconv.Atoi(t.Aux)
+			return err == nil && n <= g.Snap.nFresh
+		}
+		if !sharedCell(add.Recv) {
+			bad("the counter of finished attempts must be the one shared by all attempts of this call (an attempt's own counter never reaches maxHedges+1, so a call whose attempts all fail would never return)")
+			continue
+		}
 		if abortable == nil {
 			bad("the attempt's result is not tested against the cancel conditions")
 			continue
@@ -822,11 +838,7 @@ func c09Attempt(c *Ctx, ev *Evaluator, g *Event, innerFn, maxHedges, resultChan 
 		// the claim may also be a sync.Once shared by all attempts of this call: Do runs the send for the first claimant
 		// only, which is what winning the CompareAndSwap means
 		if nCas == 0 && nOnce == 1 && nSend == 0 {
-			shared := false
-			if n, err := strconv.Atoi(once.Recv.Aux); err == nil && g.Snap != nil && n <= g.Snap.nFresh {
-				shared = true
-			}
-			if !shared || len(once.Args) != 1 || once.Args[0].Fn == nil {
+			if !sharedCell(once.Recv) || len(once.Args) != 1 || once.Args[0].Fn == nil {
 				bad("the sync.Once that claims delivery must be the one shared by all attempts of this call, and be given the send")
 				continue
 			}
@@ -853,6 +865,10 @@ func c09Attempt(c *Ctx, ev *Evaluator, g *Event, innerFn, maxHedges, resultChan 
 		}
 		if nCas != 1 || !isFalse(cas.Args[0]) || !isTrue(cas.Args[1]) {
 			bad("an eligible result must claim delivery through exactly one CompareAndSwap(false, true)")
+			continue
+		}
+		if !sharedCell(cas.Recv) {
+			bad("the delivery claim must be made on the flag shared by all attempts of this call (with a flag of its own every eligible attempt sends, and the second send blocks its goroutine for ever)")
 			continue
 		}
 		won := q.State.Facts.Truth(ts, cas.Res[0])
